@@ -45,13 +45,20 @@ for sid in ids:
             viol = [l for l in o3.splitlines() if l.startswith('VIOLATION')]
             r[mode] = {'exit': rc3, 'violations': [re.sub(r'.*replay=\S*/', '', v) for v in viol][:6],
                        'notes': [l[:160] for l in o3.splitlines() if l.startswith(('NOTE', 'UNDECIDED', 'MACHINERY'))][:4]}
+        # a bounded witness must replay: on the changed tree it reproduces (exit 1), on the unchanged tree it does not (exit 0)
+        bfiles = [v for v in r['bounded_only']['violations'] if v.startswith('bounded_')]
+        if bfiles:
+            rp = os.path.join(HERE, 'replays', pid, bfiles[0].split()[0])
+            rc4, o4 = run('./check %s --replay %s' % (pid, rp), {'VERIF_REPO': mut}, 900, cwd=HERE)
+            rc5, o5 = run('./check %s --replay %s' % (pid, rp), {'VERIF_REPO': '/repo'}, 900, cwd=HERE)
+            r['replay'] = {'file': bfiles[0].split()[0], 'on_changed_tree_exit': rc4, 'on_unchanged_tree_exit': rc5}
         # the full check is the two layers together: it exits 1 when either does
         exits = [r['proof_only']['exit'], r['bounded_only']['exit']]
         r['full'] = {'exit': 1 if 1 in exits else max(e for e in exits if e != 3) if any(e != 3 for e in exits) else 3, 'violations': r['proof_only']['violations'] + r['bounded_only']['violations'], 'notes': []}
         r['detected'] = r['full']['exit'] == 1
         res[sid] = r
         print(sid, 'demo', r['demo_clean'], r['demo_mutant'], '| check exit', r['full']['exit'], 'proof', r['proof_only']['exit'], 'bounded', r['bounded_only']['exit'],
-              (r['proof_only']['violations'] or r['bounded_only']['violations'] or [''])[0][:90])
+              (r['proof_only']['violations'] or r['bounded_only']['violations'] or [''])[0][:90], '| replay', (r.get('replay') or {}).get('on_changed_tree_exit'), (r.get('replay') or {}).get('on_unchanged_tree_exit'))
     finally:
         shutil.rmtree(clean, ignore_errors=True)
         shutil.rmtree(mut, ignore_errors=True)
